@@ -123,7 +123,8 @@ CHECKS["C19"] = dict(
         "distinct frames, search(build l) p is the list index of p; unlisted frames are missing in both views; guest->machine->guest is the identity on "
         "listed frames; both views yield the same page index; allocation failure at any point is reported. Tie: the static functions via #include on index "
         "lists over the whole 2^64 frame space with every realloc failure point, the first-step functions on in-memory tables in both byte orders, and "
-        "generated xc_core files (p2m and pfn-only, LE x86_64 and BE s390x) through kdump_read and addrxlat_fulladdr_conv.",
+        "generated xc_core files (p2m and pfn-only, LE x86_64 and BE s390x) through kdump_read and addrxlat_fulladdr_conv."
+        "Round 4: chains of 2-4 dumps opened on one context (PV and HVM in all orders; model Ctx/openCtx/openAll; reopen_last_dump_only, reopen_mode_of_last, reopen_views_last_only, history_last_only).",
    note=TB + "qsort is modelled by an insertion sort (trusted to sort). Page lists naming a frame twice have no consistent view and are outside the property.",
    technique="Lean 4 proof (run-length index = list index, for all lists) + differential correspondence", design="§6 C19")
 CHECKS["C09"] = dict(
@@ -211,7 +212,8 @@ CHECKS["C08"] = dict(
         "mapped/unmapped address and never run out of fuel; highest_linear is sound. Tie and property evaluation: synthesized kernel images (x86_64 Linux "
         "4/5-level, KASLR text and direct-map offsets, negative phys_base, version present/absent, 4K/2M/1G direct map, each symbol present/absent, SME; "
         "Xen 3.x-4.x incl. BIGMEM; ia32 PAE and non-PAE; riscv64 Sv39/48/57; aarch64 4K/16K/64K) through the real addrxlat_sys_os_init, then every sampled "
-        "address through the fast paths, the hardware map and an independent walk, and physical addresses through the reverse direct map and back.",
+        "address through the fast paths, the hardware map and an independent walk, and physical addresses through the reverse direct map and back."
+        "Round 4: probing decisions of the set-up as a model (Kdf.Model.OsPick: checkPae, ia32LinuxRoot, xenTextPick; check_pae_sound, ia32_root_exact, xen_text_pick_sound), the implementation's decision compared with it per generated image; ia32 images taken in process context, Xen 3.2-3.4 ioremap areas.",
    note=TB + "addrxlat_sys_os_init and the per-architecture decision logic are covered by the image stream only (x86_64_fastpath_eq_walk is not proved); "
         "s390x, arm and ppc64 set-up, Linux-under-Xen p2m and kdumpfile/vtop.c are not exercised. Findings recorded: ia32-rdirect-without-vmalloc-start, "
         "xen-text-region-stub-pages.",
